@@ -89,6 +89,9 @@ fn main() {
             run::set_child_limits();
             run::child_main(p.id, &stream, tier, args[5].parse().unwrap(), args[6].parse().unwrap(), args[7].parse().unwrap(), Path::new(&args[8]));
         }
+        Some("__c19") => {
+            vcheck::checks::c19::child_main(&args[2], args[3].parse().unwrap());
+        }
         Some("__replay") => {
             run::set_child_limits();
             std::process::exit(run::replay_file(&props, Path::new(&args[2])));
